@@ -6,7 +6,7 @@ import sys
 
 RULE = ("Hypothesis-generated call histories: 0-4 earlier research.backtest calls followed by a probe call. Earlier calls vary the "
         "exchange name (3 names), spot/futures, leverage, leverage mode, fee, balance, routes / symbols / timeframes, warm-up "
-        "size, simulator mode, declared hyperparameters with none / some / all of them passed, decisions gated by an indicator that reads the configured candle window, and may abort part-way (a scripted hook raises at a drawn step, or an order is rejected). Each "
+        "size, simulator mode, declared hyperparameters with none / some / all of them passed, decisions gated by an indicator that reads the configured candle window and by a step counter kept in the strategies' shared_vars and by a @cached strategy method; calls with an equal strategy script pass the very same strategy class object, and may abort part-way (a scripted hook raises at a drawn step, or an order is rejected). Each "
         "history runs in ONE fresh interpreter (subprocess) without any harness-side cleaning of jesse's globals; the probe "
         "alone runs in another fresh interpreter. The probe's full return value (metrics, NaN-aware, exact), its orders (all "
         "fields, in submission order), trades, final balances and equity samples must be identical, and the arguments passed "
@@ -98,7 +98,7 @@ def run_shard(acc, shard, nshards, seed, tier):
     from vf import runner
     from vf.gen import sessions
     known = runner.known_signatures('C11')
-    base = sessions.session(minutes=(60, 140), kinds=('futures', 'futures', 'spot'), max_data=1, align_len=True, modes=('cross', 'isolated'), program=dict(busy=True))
+    base = sessions.session(minutes=(60, 140), kinds=('futures', 'futures', 'spot'), max_data=1, data_only_symbol=True, align_len=True, modes=('cross', 'isolated'), program=dict(busy=True), logs=(False, False, False, True))
 
     @st.composite
     def call(draw, probe=False):
@@ -114,6 +114,12 @@ def run_shard(acc, shard, nshards, seed, tier):
         if draw(st.booleans()):
             for sc in spec['scripts'].values():
                 sc['gate'] = 'obv'  # decisions read an indicator whose value depends on the configured candle window
+        if draw(st.booleans()):
+            for sc in spec['scripts'].values():
+                sc['cached'] = True  # decisions read a @cached strategy method that is also evaluated in terminate()
+        if draw(st.booleans()):
+            for sc in spec['scripts'].values():
+                sc['shared'] = True  # steps are counted in self.shared_vars and decisions read the count
         hpk = draw(st.sampled_from(['none', 'none', 'declared-only', 'partial', 'partial', 'full']))
         if hpk != 'none':
             # strategies declare hyperparameters (the entry size is scaled by `mult`); the caller passes none, some or all of them
@@ -130,9 +136,18 @@ def run_shard(acc, shard, nshards, seed, tier):
         n = draw(st.sampled_from([1, 2, 1, 2, 3, 0] + ([4] if tier == 'thorough' else [])))
         earlier = []
         for _ in range(n):
-            style = draw(st.sampled_from(['fresh', 'fresh', 'same-name-other-config', 'identical']))
+            style = draw(st.sampled_from(['fresh', 'fresh', 'same-name-other-config', 'identical', 'same-strategy-other-candles']))
             if style == 'identical':
                 c = json.loads(json.dumps(probe))
+            elif style == 'same-strategy-other-candles':
+                # the same strategy class (equal script) run on another market: same routes and scripts, other candles
+                c = json.loads(json.dumps(probe))
+                other = draw(call())
+                donor = list(other['candles'].values())
+                n0 = min(len(v) for v in c['candles'].values())
+                if all(len(d) >= n0 for d in donor):
+                    for i, k in enumerate(c['candles']):
+                        c['candles'][k] = donor[i % len(donor)][:len(c['candles'][k])]
             else:
                 c = draw(call())
                 if style == 'same-name-other-config':
